@@ -1,31 +1,35 @@
 (** C08 - Tax scales compute their mathematical definition for every base.
-    Only statements here; proofs are in proofs/Scale*Proofs.v.
+    Only statements here; proofs are in proofs/ScaleProofs.v and proofs/ScaleC08Proofs.v.
 
-    Vocabulary (defined in proofs/ScaleProofs.v, section 4 "Specifications"):
-      overlap lo hi b     = max(0, min(b, hi) - lo)    length of [lo, hi) ∩ (-inf, b); hi may be +inf
-      upper_end rest      = threshold of the next bracket, +inf after the last one
-      marginal_tax b s    = sum over the brackets (t_i, r_i) of s of r_i * overlap t_i t_i+1 b
+    A scale is the list of its brackets (threshold, rate-or-amount); [build calls] is the
+    scale produced by the add_bracket calls [calls].  [eps] is the threshold shift of the
+    code (thresholds are multiplied by factor + eps); eps = 0 gives the property's text.
+
+    Vocabulary (ScaleProofs.v section 4, ScaleC08Proofs.v "Specifications"):
+      overlap lo hi b      = max(0, min(b, hi) - lo): length of [lo, hi) ∩ (-inf, b); hi may be +inf
+      upper_end rest       = threshold of the next bracket, +inf after the last one
+      marginal_tax b s     = sum over the brackets (t_i, r_i) of s of r_i * overlap t_i t_i+1 b
       shift_thresholds m s = the scale with every threshold multiplied by m
-      seq s s'            = same brackets up to [==] on the rationals
-      sorted s            = thresholds strictly increasing
-      lookup t calls      = sum of the rates of the calls whose threshold is == t *)
+      amounts_below b s    = sum of the amounts a_i of the brackets with t_i < b
+      in_bracket right lo hi b = lo <= b < hi   (right = false);   lo < b <= hi   (right = true)
+      before right b t     = b < t (right = false);  b <= t (right = true)
+      interpolated_rate t0 r0 t1 r1 b = r0 + (b - t0) * (r1 - r0) / (t1 - t0);  r0 when t1 = +inf
+      seq s s'             = same brackets up to [==] on the rationals
+      sorted s / esorted s = thresholds strictly increasing (finite / possibly +inf thresholds)
+      lookup t calls       = sum of the rates of the calls whose threshold is == t
+    A scale is split as  pre ++ (t, r) :: post  to name "the bracket starting at t". *)
 From Coq Require Import ZArith QArith Qminmax List Bool Permutation.
-From Verif Require Import Base Scale ScaleProofs.
+From Verif Require Import Base Scale ScaleProofs ScaleC08Proofs.
 Import ListNotations.
 Open Scope Q_scope.
 
-(** ** a vector of bases gives the values of each base alone *)
+(* ------------------------------------------------------------------------- *)
+(** * marginal-rate scale                                                      *)
+(* ------------------------------------------------------------------------- *)
 
-Theorem vector_is_pointwise_marginal_rate : forall eps factor round s bases,
-  calc_marginal eps factor round s bases
-  = concat (map (fun b => calc_marginal eps factor round s [b]) bases).
-Proof. exact calc_marginal_pointwise. Qed.
-Print Assumptions vector_is_pointwise_marginal_rate.
-
-(** ** marginal-rate scale: sum over brackets of rate times the part of the base inside the
-    bracket; thresholds as the code shifts them, t' = t * (factor + eps).  Holds for every
-    scale, sorted or not ([overlap] of an empty interval is 0). *)
-
+(** Sum over brackets of rate times the part of the base inside the bracket; thresholds as
+    the code shifts them, t' = t * (factor + eps).  Holds for every scale, sorted or not
+    ([overlap] of an empty interval is 0), for whole vectors of bases. *)
 Theorem marginal_rate_def : forall eps factor s bases,
   Forall2 Qeq (calc_marginal eps factor None s bases)
               (map (fun b => marginal_tax b (shift_thresholds (factor + eps) s)) bases).
@@ -38,7 +42,119 @@ Theorem marginal_rate_def_clean : forall s bases,
 Proof. exact calc_marginal_def_clean. Qed.
 Print Assumptions marginal_rate_def_clean.
 
-(** ** results do not depend on the order in which brackets were added *)
+(** [marginal_tax] is the textbook function: 0 up to the first threshold, then continuous
+    and linear with slope r inside the bracket starting at t. *)
+Theorem marginal_tax_is_zero_below : forall b s,
+  Forall (fun x => b <= fst x) s -> marginal_tax b s == 0.
+Proof. exact marginal_tax_zero_below. Qed.
+Print Assumptions marginal_tax_is_zero_below.
+
+Theorem marginal_tax_is_piecewise_linear : forall pre t r post b,
+  sorted (pre ++ (t, r) :: post) ->
+  t <= b -> match upper_end post with Fin h => b <= h | Inf => True end ->
+  marginal_tax b (pre ++ (t, r) :: post) == marginal_tax t (pre ++ (t, r) :: post) + r * (b - t).
+Proof. exact marginal_tax_piecewise_linear. Qed.
+Print Assumptions marginal_tax_is_piecewise_linear.
+
+(* ------------------------------------------------------------------------- *)
+(** * marginal-amount scale                                                    *)
+(* ------------------------------------------------------------------------- *)
+
+Theorem marginal_amount_def : forall s bases,
+  sorted s ->
+  Forall2 Qeq (calc_marginal_amount s bases) (map (fun b => amounts_below b s) bases).
+Proof. exact calc_marginal_amount_def. Qed.
+Print Assumptions marginal_amount_def.
+
+Theorem marginal_amount_def_build : forall calls bases,
+  Forall2 Qeq (calc_marginal_amount (build calls) bases)
+              (map (fun b => amounts_below b (build calls)) bases).
+Proof. exact calc_marginal_amount_def_build. Qed.
+Print Assumptions marginal_amount_def_build.
+
+(* ------------------------------------------------------------------------- *)
+(** * single-amount scale                                                      *)
+(* ------------------------------------------------------------------------- *)
+
+(** the amount of the one bracket containing the base (both [right] modes of digitize) *)
+Theorem single_amount_def : forall right pre t a post b,
+  sorted (pre ++ (t, a) :: post) ->
+  in_bracket right t (upper_end post) b ->
+  calc_single_amount right (pre ++ (t, a) :: post) [b] = [a].
+Proof. exact calc_single_amount_def. Qed.
+Print Assumptions single_amount_def.
+
+(** 0 outside: a base before every threshold *)
+Theorem single_amount_outside : forall right s b,
+  Forall (fun x => before right b (fst x)) s ->
+  calc_single_amount right s [b] = [0].
+Proof. exact calc_single_amount_outside. Qed.
+Print Assumptions single_amount_outside.
+
+(* ------------------------------------------------------------------------- *)
+(** * linear-average-rate scale                                                *)
+(* ------------------------------------------------------------------------- *)
+
+(** base times the rate interpolated linearly between the two thresholds around it *)
+Theorem linear_average_def : forall pre t0 r0 t1 r1 post b,
+  sorted (pre ++ (t0, r0) :: (t1, r1) :: post) ->
+  t0 <= b < t1 ->
+  exists v, calc_linear_average (to_escale (pre ++ (t0, r0) :: (t1, r1) :: post)) [b] = Ok [v]
+            /\ v == b * (r0 + (b - t0) * ((r1 - r0) / (t1 - t0))).
+Proof. exact calc_linear_average_def_fin. Qed.
+Print Assumptions linear_average_def.
+
+(** the same when thresholds may be +inf (scales produced by to_average) *)
+Theorem linear_average_def_ext : forall pre t0 r0 t1 r1 post b,
+  esorted (pre ++ (Fin t0, r0) :: (t1, r1) :: post) ->
+  in_bracket false t0 t1 b ->
+  exists v, calc_linear_average (pre ++ (Fin t0, r0) :: (t1, r1) :: post) [b] = Ok [v]
+            /\ v == b * interpolated_rate t0 r0 t1 r1 b.
+Proof. exact calc_linear_average_def. Qed.
+Print Assumptions linear_average_def_ext.
+
+(* ------------------------------------------------------------------------- *)
+(** * the bracket and the marginal rate reported for a base                    *)
+(* ------------------------------------------------------------------------- *)
+
+(** For factor + eps > 0 and a base in the shifted interval [t * m, t_next * m) of the
+    bracket starting at t (m = factor + eps): the index is the position of that bracket,
+    the marginal rate its rate, the threshold its threshold. *)
+Theorem bracket_of_base : forall eps factor pre t r post b,
+  sorted (pre ++ (t, r) :: post) ->
+  0 < factor + eps ->
+  in_bracket false ((factor + eps) * t) (emul (factor + eps) (upper_end post)) b ->
+  bracket_indices eps factor None (pre ++ (t, r) :: post) [b] = Ok [Z.of_nat (length pre)].
+Proof. exact bracket_of_base_index. Qed.
+Print Assumptions bracket_of_base.
+
+Theorem marginal_rate_of_base : forall eps factor pre t r post b,
+  sorted (pre ++ (t, r) :: post) ->
+  0 < factor + eps ->
+  in_bracket false ((factor + eps) * t) (emul (factor + eps) (upper_end post)) b ->
+  marginal_rates eps factor None (pre ++ (t, r) :: post) [b] = Ok [r].
+Proof. exact bracket_of_base_rate. Qed.
+Print Assumptions marginal_rate_of_base.
+
+Theorem rate_from_tax_base_of_base : forall eps pre t r post b,
+  sorted (pre ++ (t, r) :: post) ->
+  0 < 1 + eps ->
+  in_bracket false ((1 + eps) * t) (emul (1 + eps) (upper_end post)) b ->
+  rate_from_tax_base eps (pre ++ (t, r) :: post) [b] = Ok [r].
+Proof. exact bracket_of_base_rate_from. Qed.
+Print Assumptions rate_from_tax_base_of_base.
+
+Theorem threshold_from_tax_base_of_base : forall eps pre t r post b,
+  sorted (pre ++ (t, r) :: post) ->
+  0 < 1 + eps ->
+  in_bracket false ((1 + eps) * t) (emul (1 + eps) (upper_end post)) b ->
+  threshold_from_tax_base eps (pre ++ (t, r) :: post) [b] = Ok [t].
+Proof. exact bracket_of_base_threshold_from. Qed.
+Print Assumptions threshold_from_tax_base_of_base.
+
+(* ------------------------------------------------------------------------- *)
+(** * results do not depend on the order in which brackets were added          *)
+(* ------------------------------------------------------------------------- *)
 
 Theorem insertion_order_irrelevant : forall calls1 calls2,
   Permutation calls1 calls2 -> seq (build calls1) (build calls2).
@@ -53,3 +169,140 @@ Theorem build_canonical : forall calls,
   /\ (forall t r, In (t, r) (build calls) -> r == lookup t calls).
 Proof. exact build_canonical_form. Qed.
 Print Assumptions build_canonical.
+
+Theorem tax_insertion_order_irrelevant : forall eps factor calls1 calls2 bases,
+  Permutation calls1 calls2 ->
+  Forall2 Qeq (calc_marginal eps factor None (build calls1) bases)
+              (calc_marginal eps factor None (build calls2) bases).
+Proof. exact calc_marginal_order_irrelevant. Qed.
+Print Assumptions tax_insertion_order_irrelevant.
+
+(* ------------------------------------------------------------------------- *)
+(** * a vector of bases gives the values of each base alone                    *)
+(* ------------------------------------------------------------------------- *)
+
+Theorem vector_is_pointwise_marginal_rate : forall eps factor round s bases,
+  calc_marginal eps factor round s bases
+  = concat (map (fun b => calc_marginal eps factor round s [b]) bases).
+Proof. exact calc_marginal_pointwise. Qed.
+Print Assumptions vector_is_pointwise_marginal_rate.
+
+Theorem vector_is_pointwise_marginal_amount : forall s bases,
+  calc_marginal_amount s bases = concat (map (fun b => calc_marginal_amount s [b]) bases).
+Proof. exact calc_marginal_amount_pointwise. Qed.
+Print Assumptions vector_is_pointwise_marginal_amount.
+
+Theorem vector_is_pointwise_single_amount : forall right s bases,
+  calc_single_amount right s bases = concat (map (fun b => calc_single_amount right s [b]) bases).
+Proof. exact calc_single_amount_pointwise. Qed.
+Print Assumptions vector_is_pointwise_single_amount.
+
+Theorem vector_is_pointwise_linear_average : forall s bases,
+  s <> [] ->
+  exists l, calc_linear_average s bases = Ok l
+            /\ Forall2 (fun b v => calc_linear_average s [b] = Ok [v]) bases l.
+Proof. exact calc_linear_average_pointwise. Qed.
+Print Assumptions vector_is_pointwise_linear_average.
+
+Theorem vector_is_pointwise_bracket_indices : forall eps factor round s bases,
+  s <> [] -> bases <> [] ->
+  exists l, bracket_indices eps factor round s bases = Ok l
+            /\ Forall2 (fun b k => bracket_indices eps factor round s [b] = Ok [k]) bases l.
+Proof. exact bracket_indices_pointwise. Qed.
+Print Assumptions vector_is_pointwise_bracket_indices.
+
+Theorem vector_is_pointwise_marginal_rates : forall eps factor round s bases,
+  s <> [] -> bases <> [] ->
+  exists l, marginal_rates eps factor round s bases = Ok l
+            /\ Forall2 (fun b k => marginal_rates eps factor round s [b] = Ok [k]) bases l.
+Proof. exact marginal_rates_pointwise. Qed.
+Print Assumptions vector_is_pointwise_marginal_rates.
+
+(* ------------------------------------------------------------------------- *)
+(** * Non-vacuity: a concrete 3-bracket scale                                  *)
+(* ------------------------------------------------------------------------- *)
+
+(** brackets from 0 at 10 %, from 10 at 20 %, from 20 at 30 %, added out of order *)
+Example s3_build :
+  build [(20, 3 # 10); (0, 1 # 10); (10, 2 # 10)] = [(0, 1 # 10); (10, 2 # 10); (20, 3 # 10)].
+Proof. reflexivity. Qed.
+
+Example s3_sorted : sorted ([(0, 1 # 10)] ++ (10, 2 # 10) :: [(20, 3 # 10)]).
+Proof. unfold sorted. cbn. repeat constructor. Qed.
+
+(** merging: two calls on the same threshold sum their rates *)
+Example s3_build_merge :
+  seq (build [(10, 1 # 10); (0, 1 # 10); (10, 1 # 10)]) [(0, 1 # 10); (10, 2 # 10)].
+Proof. cbn. repeat constructor. Qed.
+
+(** 25 is taxed 10*0.1 + 10*0.2 + 5*0.3 = 4.5; 5 -> 0.5; -1 -> 0; 10 -> 1 *)
+Example marginal_rate_def_ex :
+  Forall2 Qeq (calc_marginal 0 1 None [(0, 1 # 10); (10, 2 # 10); (20, 3 # 10)] [25; 5; -1; 10])
+              [9 # 2; 1 # 2; 0; 1].
+Proof. cbn. repeat constructor. Qed.
+
+Example marginal_tax_ex :
+  map (fun b => Qred (marginal_tax b [(0, 1 # 10); (10, 2 # 10); (20, 3 # 10)])) [25; 5; -1; 10]
+  = [9 # 2; 1 # 2; 0; 1].
+Proof. reflexivity. Qed.
+
+Example marginal_tax_is_piecewise_linear_ex :
+  marginal_tax 15 ([(0, 1 # 10)] ++ (10, 2 # 10) :: [(20, 3 # 10)])
+  == marginal_tax 10 ([(0, 1 # 10)] ++ (10, 2 # 10) :: [(20, 3 # 10)]) + (2 # 10) * (15 - 10).
+Proof.
+  apply marginal_tax_is_piecewise_linear; [exact s3_sorted|discriminate|discriminate].
+Qed.
+
+Example marginal_amount_def_ex :
+  Forall2 Qeq (calc_marginal_amount [(0, 1); (10, 2); (20, 4)] [25; 10; 0; 11]) [7; 1; 0; 3].
+Proof. cbn. repeat constructor. Qed.
+
+Example single_amount_def_ex :
+  calc_single_amount false ([(0, 1)] ++ (10, 2) :: [(20, 4)]) [10] = [2]
+  /\ calc_single_amount true ([(0, 1)] ++ (10, 2) :: [(20, 4)]) [20] = [2].
+Proof.
+  split.
+  - apply single_amount_def; [unfold sorted; cbn; repeat constructor|].
+    split; [discriminate|reflexivity].
+  - apply single_amount_def; [unfold sorted; cbn; repeat constructor|].
+    split; [reflexivity|discriminate].
+Qed.
+
+Example single_amount_outside_ex : calc_single_amount false [(0, 1); (10, 2); (20, 4)] [-1] = [0].
+Proof. apply single_amount_outside. repeat constructor. Qed.
+
+Example linear_average_def_ex :
+  exists v, calc_linear_average (to_escale ([(0, 0)] ++ (10, 1 # 10) :: (20, 2 # 10) :: [])) [15] = Ok [v]
+            /\ v == 15 * ((1 # 10) + (15 - 10) * (((2 # 10) - (1 # 10)) / (20 - 10))).
+Proof.
+  apply linear_average_def; [unfold sorted; cbn; repeat constructor|].
+  split; [discriminate|reflexivity].
+Qed.
+
+(** a base equal to a positive threshold is in the lower bracket when eps > 0, in the
+    bracket starting there when eps = 0 *)
+Example bracket_of_base_ex :
+  bracket_indices 0 1 None ([(0, 1 # 10)] ++ (10, 2 # 10) :: [(20, 3 # 10)]) [10] = Ok [1%Z]
+  /\ bracket_indices (1 # 1000) 1 None ([] ++ (0, 1 # 10) :: [(10, 2 # 10); (20, 3 # 10)]) [10] = Ok [0%Z].
+Proof.
+  split.
+  - apply (bracket_of_base 0 1 [(0, 1 # 10)]); [exact s3_sorted|reflexivity|].
+    split; [discriminate|reflexivity].
+  - apply (bracket_of_base (1 # 1000) 1 []); [exact s3_sorted|reflexivity|].
+    split; [discriminate|reflexivity].
+Qed.
+
+Example marginal_rate_of_base_ex :
+  marginal_rates 0 1 None ([(0, 1 # 10)] ++ (10, 2 # 10) :: [(20, 3 # 10)]) [15] = Ok [2 # 10].
+Proof.
+  apply (marginal_rate_of_base 0 1 [(0, 1 # 10)]); [exact s3_sorted|reflexivity|].
+  split; [discriminate|reflexivity].
+Qed.
+
+Example insertion_order_irrelevant_ex :
+  seq (build [(20, 3 # 10); (0, 1 # 10); (10, 2 # 10)]) (build [(10, 2 # 10); (20, 3 # 10); (0, 1 # 10)]).
+Proof.
+  apply insertion_order_irrelevant.
+  apply perm_trans with [(10, 2 # 10); (20, 3 # 10); (0, 1 # 10)]; [|apply Permutation_refl].
+  apply Permutation_sym. apply (Permutation_cons_app [(20, 3 # 10); (0, 1 # 10)] []). apply Permutation_refl.
+Qed.
